@@ -22,3 +22,287 @@ Proof.
   destruct (compare_subversion _ _); [|discriminate].
   destruct (negb _); [discriminate|]. destruct (compare_subversion _ _); discriminate.
 Qed.
+
+(* ---------- fragments consume input ---------- *)
+Lemma span_length : forall p l a b, span p l = (a, b) -> (length a + length b = length l)%nat.
+Proof.
+  induction l as [|x r IH]; intros a b H; cbn [span] in H.
+  - inversion H; reflexivity.
+  - destruct (p x).
+    + destruct (span p r) as [a' b'] eqn:E. inversion H; subst. cbn [length]. specialize (IH _ _ eq_refl). lia.
+    + inversion H; subst. reflexivity.
+Qed.
+
+Lemma span_hd : forall p x r a b, p x = true -> span p (x :: r) = (a, b) -> a <> [].
+Proof.
+  intros p x r a b Hp H. cbn [span] in H. rewrite Hp in H. destruct (span p r). inversion H. discriminate.
+Qed.
+
+Lemma next_frag_length : forall s f r n, next_frag s = (f, r, n) -> (length f + length r = length s)%nat.
+Proof.
+  intros s f r n H. unfold next_frag in H. destruct s as [|c s'].
+  - inversion H; reflexivity.
+  - destruct (is_digit c).
+    + destruct (span is_digit (c :: s')) as [f' r'] eqn:E. inversion H; subst. eapply span_length; eauto.
+    + destruct (span _ (c :: s')) as [f' r'] eqn:E. inversion H; subst. eapply span_length; eauto.
+Qed.
+
+Lemma next_frag_nonempty : forall c s f r n, next_frag (c :: s) = (f, r, n) -> f <> [].
+Proof.
+  intros c s f r n H. unfold next_frag in H. destruct (is_digit c) eqn:D.
+  - destruct (span is_digit (c :: s)) as [f' r'] eqn:E. inversion H; subst. eapply span_hd; eauto.
+  - destruct (span _ (c :: s)) as [f' r'] eqn:E. inversion H; subst.
+    eapply (span_hd (fun x => negb (is_digit x))); eauto. cbn. rewrite D. reflexivity.
+Qed.
+
+Lemma next_frag_nil_frag : forall s f r n, next_frag s = (f, r, n) -> f = [] -> s = [] /\ n = false /\ r = [].
+Proof.
+  intros s f r n H Hf. destruct s as [|c s'].
+  - cbn in H. inversion H. auto.
+  - exfalso. eapply next_frag_nonempty; eauto.
+Qed.
+
+Lemma is_nil_true : forall l, is_nil l = true <-> l = [].
+Proof. destruct l; cbn; split; congruence. Qed.
+
+(* ---------- totality: the fuel given by sub_fuel is always enough ---------- *)
+Lemma cmp_sub_total : forall fuel first va vb,
+  (length va + length vb < fuel)%nat -> cmp_sub fuel first va vb <> None.
+Proof.
+  induction fuel as [|f IH]; intros first va vb Hl; [lia|].
+  cbn [cmp_sub].
+  destruct (next_frag va) as [[a va'] an] eqn:Ea.
+  destruct (next_frag vb) as [[b vb'] bn] eqn:Eb.
+  destruct (is_nil a && is_nil b) eqn:En; [discriminate|].
+  match goal with |- (if ?c then _ else _) <> None => destruct c end; [|discriminate].
+  apply IH.
+  pose proof (next_frag_length _ _ _ _ Ea). pose proof (next_frag_length _ _ _ _ Eb).
+  assert (length a + length b > 0)%nat.
+  { destruct a, b; cbn in En; try discriminate; cbn [length]; lia. }
+  lia.
+Qed.
+
+Lemma compare_subversion_total : forall va vb, compare_subversion va vb <> None.
+Proof. intros. unfold compare_subversion, sub_fuel. apply cmp_sub_total. lia. Qed.
+
+Lemma version_compare_total : forall a b, version_compare a b <> OutOfFuel.
+Proof.
+  intros a b. unfold version_compare. destruct (match_epoch a || match_epoch b); [discriminate|].
+  destruct (split_rev a) as [ma ra], (split_rev b) as [mb rb].
+  destruct (compare_subversion ma mb) eqn:E1; [|exfalso; eapply compare_subversion_total; eauto].
+  destruct (negb _); [discriminate|].
+  destruct (compare_subversion ra rb) eqn:E2; [discriminate|exfalso; eapply compare_subversion_total; eauto].
+Qed.
+
+(* ---------- sign flip ---------- *)
+Lemma cmp1_flip : forall x y k, cmp1 y x (- k) = (- cmp1 x y k)%Z.
+Proof.
+  intros. unfold cmp1.
+  destruct (Z.ltb_spec (ch_order x) (ch_order y)), (Z.ltb_spec (ch_order y) (ch_order x));
+  destruct (Z.gtb_spec (ch_order x) (ch_order y)), (Z.gtb_spec (ch_order y) (ch_order x)); try lia; reflexivity.
+Qed.
+
+Lemma cmp_string_nil_l : forall b, cmp_string [] b = (- cmp_string b [])%Z.
+Proof.
+  induction b as [|y b IH]; [reflexivity|].
+  change (cmp_string [] (y :: b)) with (cmp1 0 y (cmp_string [] b)).
+  rewrite IH. change (cmp_string (y :: b) []) with (cmp1 y 0 (cmp_string b [])). apply cmp1_flip.
+Qed.
+
+Lemma cmp_string_flip : forall a b, cmp_string b a = (- cmp_string a b)%Z.
+Proof.
+  induction a as [|x a IH]; intros b.
+  - rewrite cmp_string_nil_l. lia.
+  - destruct b as [|y b].
+    + rewrite cmp_string_nil_l. reflexivity.
+    + cbn [cmp_string]. rewrite IH. apply cmp1_flip.
+Qed.
+
+Lemma cmp_bytes_num_flip : forall a b, length a = length b -> cmp_bytes_num b a = (- cmp_bytes_num a b)%Z.
+Proof.
+  induction a as [|x a IH]; intros [|y b] Hl; try discriminate; [reflexivity|].
+  cbn [cmp_bytes_num].
+  destruct (N.ltb_spec y x), (N.ltb_spec x y); try lia; try reflexivity.
+  apply IH. cbn in Hl. lia.
+Qed.
+
+Lemma cmp_numeric_flip : forall a b, cmp_numeric b a = (- cmp_numeric a b)%Z.
+Proof.
+  intros. unfold cmp_numeric.
+  destruct (Z.gtb_spec (Z.of_nat (length (trim_zeroes a))) (Z.of_nat (length (trim_zeroes b)))),
+           (Z.gtb_spec (Z.of_nat (length (trim_zeroes b))) (Z.of_nat (length (trim_zeroes a))));
+  destruct (Z.ltb_spec (Z.of_nat (length (trim_zeroes a))) (Z.of_nat (length (trim_zeroes b)))),
+           (Z.ltb_spec (Z.of_nat (length (trim_zeroes b))) (Z.of_nat (length (trim_zeroes a)))); try lia; try reflexivity.
+  apply cmp_bytes_num_flip. lia.
+Qed.
+
+Lemma zeqb_opp : forall r, (- r =? 0)%Z = (r =? 0)%Z.
+Proof. intros. destruct (Z.eqb_spec r 0), (Z.eqb_spec (- r) 0); lia || reflexivity. Qed.
+
+Lemma cmp_sub_flip : forall fuel first va vb r,
+  cmp_sub fuel first va vb = Some r -> cmp_sub fuel first vb va = Some (- r)%Z.
+Proof.
+  induction fuel as [|f IH]; intros first va vb r H; [discriminate|].
+  cbn [cmp_sub] in *.
+  destruct (next_frag va) as [[a va'] an] eqn:Ea.
+  destruct (next_frag vb) as [[b vb'] bn] eqn:Eb.
+  rewrite (andb_comm (is_nil b) (is_nil a)).
+  destruct (is_nil a && is_nil b) eqn:En.
+  - inversion H; reflexivity.
+  - set (res := if an && bn then cmp_numeric a b
+          else if negb first && is_nil a && bn then cmp_numeric [48] b
+          else if negb first && is_nil b && an then cmp_numeric a [48]
+          else cmp_string a b) in *.
+    assert (Hres : (if bn && an then cmp_numeric b a
+          else if negb first && is_nil b && an then cmp_numeric [48] a
+          else if negb first && is_nil a && bn then cmp_numeric b [48]
+          else cmp_string b a) = (- res)%Z).
+    { subst res. rewrite (andb_comm bn an). destruct (an && bn); [apply cmp_numeric_flip|].
+      destruct (negb first && is_nil a && bn) eqn:C1, (negb first && is_nil b && an) eqn:C2.
+      - (* both empty opposite numeric: impossible since an -> a nonempty *)
+        exfalso. apply andb_prop in C1. destruct C1 as [C1 _]. apply andb_prop in C1. destruct C1 as [_ C1].
+        apply is_nil_true in C1.
+        destruct (next_frag_nil_frag _ _ _ _ Ea C1) as (_ & Hn & _). subst an. rewrite andb_false_r in C2. discriminate.
+      - apply cmp_numeric_flip.
+      - apply cmp_numeric_flip.
+      - apply cmp_string_flip. }
+    rewrite Hres.
+    destruct (Z.eqb_spec res 0) as [E|E].
+    + rewrite E. cbn. apply IH. exact H.
+    + destruct (Z.eqb_spec (- res) 0); [lia|]. inversion H; reflexivity.
+Qed.
+
+Lemma version_compare_flip : forall a b r, version_compare a b = Res r -> version_compare b a = Res (- r)%Z.
+Proof.
+  intros a b r. unfold version_compare. rewrite (orb_comm (match_epoch b)).
+  destruct (match_epoch a || match_epoch b); [discriminate|].
+  destruct (split_rev a) as [ma ra], (split_rev b) as [mb rb].
+  unfold compare_subversion, sub_fuel.
+  rewrite (Nat.add_comm (length mb)), (Nat.add_comm (length rb)).
+  destruct (cmp_sub _ true ma mb) as [r1|] eqn:E1; [|discriminate].
+  rewrite (cmp_sub_flip _ _ _ _ _ E1).
+  rewrite zeqb_opp.
+  destruct (r1 =? 0)%Z; cbn [negb].
+  - destruct (cmp_sub _ true ra rb) as [r2|] eqn:E2; [|discriminate].
+    rewrite (cmp_sub_flip _ _ _ _ _ E2). intros H; inversion H; reflexivity.
+  - intros H; inversion H; reflexivity.
+Qed.
+
+(* ---------- reflexivity (from totality and the sign flip) ---------- *)
+Lemma version_compare_refl : forall a, match_epoch a = false -> version_compare a a = Res 0%Z.
+Proof.
+  intros a He. destruct (version_compare a a) as [|r|] eqn:E.
+  - apply invalid_only_epoch in E. destruct E; congruence.
+  - pose proof (version_compare_flip _ _ _ E) as F. rewrite E in F. inversion F. f_equal. lia.
+  - exfalso. eapply version_compare_total; eauto.
+Qed.
+
+(* ---------- results are -1, 0 or +1 ---------- *)
+Definition tri (z : Z) : Prop := (z = -1 \/ z = 0 \/ z = 1)%Z.
+
+Lemma cmp1_tri : forall x y k, tri k -> tri (cmp1 x y k).
+Proof. intros. unfold cmp1, tri in *. destruct (_ <? _)%Z; [lia|]. destruct (_ >? _)%Z; lia. Qed.
+
+Lemma cmp_string_tri : forall a b, tri (cmp_string a b).
+Proof.
+  assert (G : forall b, tri (cmp_string [] b)).
+  { induction b as [|y b IH]; [right; left; reflexivity|].
+    change (cmp_string [] (y :: b)) with (cmp1 0 y (cmp_string [] b)). apply cmp1_tri, IH. }
+  induction a as [|x a IH]; intros b; [apply G|].
+  destruct b as [|y b]; cbn [cmp_string]; apply cmp1_tri, IH.
+Qed.
+
+Lemma cmp_bytes_num_tri : forall a b, tri (cmp_bytes_num a b).
+Proof.
+  induction a as [|x a IH]; intros [|y b]; cbn [cmp_bytes_num]; try (right; left; reflexivity).
+  destruct (y <? x); [right; right; reflexivity|]. destruct (x <? y); [left; reflexivity|apply IH].
+Qed.
+
+Lemma cmp_numeric_tri : forall a b, tri (cmp_numeric a b).
+Proof.
+  intros. unfold cmp_numeric. destruct (_ >? _)%Z; [right; right; reflexivity|].
+  destruct (_ <? _)%Z; [left; reflexivity|apply cmp_bytes_num_tri].
+Qed.
+
+Lemma cmp_sub_tri : forall fuel first va vb r, cmp_sub fuel first va vb = Some r -> tri r.
+Proof.
+  induction fuel as [|f IH]; intros first va vb r H; [discriminate|].
+  cbn [cmp_sub] in H.
+  destruct (next_frag va) as [[a va'] an]. destruct (next_frag vb) as [[b vb'] bn].
+  destruct (is_nil a && is_nil b); [inversion H; right; left; reflexivity|].
+  match type of H with (if (?res =? 0)%Z then _ else _) = _ =>
+    assert (T : tri res) by
+      (destruct (an && bn); [apply cmp_numeric_tri|];
+       destruct (negb first && is_nil a && bn); [apply cmp_numeric_tri|];
+       destruct (negb first && is_nil b && an); [apply cmp_numeric_tri|apply cmp_string_tri]);
+    destruct (res =? 0)%Z; [eapply IH; eauto|inversion H; subst; exact T]
+  end.
+Qed.
+
+Lemma version_compare_tri : forall a b r, version_compare a b = Res r -> tri r.
+Proof.
+  intros a b r. unfold version_compare. destruct (_ || _); [discriminate|].
+  destruct (split_rev a) as [ma ra], (split_rev b) as [mb rb].
+  destruct (compare_subversion ma mb) as [r1|] eqn:E1; [|discriminate].
+  destruct (negb _).
+  - intros H; inversion H; subst. eapply cmp_sub_tri; eauto.
+  - destruct (compare_subversion ra rb) as [r2|] eqn:E2; [|discriminate].
+    intros H; inversion H; subst. eapply cmp_sub_tri; eauto.
+Qed.
+
+(* ---------- transitivity on a complete finite domain (a proof by computation, bound stated) ---------- *)
+Fixpoint all_strings (alpha : bytes) (n : nat) : list bytes :=
+  match n with
+  | O => [[]]
+  | S k => [] :: flat_map (fun s => map (fun c => c :: s) alpha) (all_strings alpha k)
+  end.
+
+Definition le_res (r : result) : bool := match r with Res z => (z <=? 0)%Z | _ => false end.
+Definition lt_res (r : result) : bool := match r with Res z => (z <? 0)%Z | _ => false end.
+
+Definition trans_ok (a b c : bytes) : bool :=
+  (negb (le_res (version_compare a b) && le_res (version_compare b c)) || le_res (version_compare a c)) &&
+  (negb (le_res (version_compare a b) && le_res (version_compare b c) &&
+         (lt_res (version_compare a b) || lt_res (version_compare b c))) || lt_res (version_compare a c)).
+
+(* alphabet: 0 a . ~ - *)
+Definition small_alpha : bytes := [48; 97; 46; 126; 45].
+Definition small_domain : list bytes := all_strings small_alpha 2.
+
+Lemma transitive_small_domain_b :
+  forallb (fun a => forallb (fun b => forallb (fun c => trans_ok a b c) small_domain) small_domain) small_domain = true.
+Proof. vm_compute. reflexivity. Qed.
+
+Lemma transitive_small_domain : forall a b c,
+  In a small_domain -> In b small_domain -> In c small_domain -> trans_ok a b c = true.
+Proof.
+  intros a b c Ha Hb Hc. pose proof transitive_small_domain_b as H.
+  rewrite forallb_forall in H. specialize (H a Ha). rewrite forallb_forall in H. specialize (H b Hb).
+  rewrite forallb_forall in H. exact (H c Hc).
+Qed.
+
+Lemma version_compare_antisym : forall (a b : bytes) (x y : Z),
+  version_compare a b = Res x -> version_compare b a = Res y -> (x <= 0)%Z -> (y <= 0)%Z -> x = 0%Z /\ y = 0%Z.
+Proof.
+  intros a b x y Hab Hba Hx Hy. apply version_compare_flip in Hab. rewrite Hab in Hba. inversion Hba. lia.
+Qed.
+
+(* ---------- agreement with the dpkg reference on a complete finite domain ---------- *)
+Definition debian_ok (a b : bytes) : bool :=
+  negb (debian_wf a && debian_wf b) ||
+  match version_compare a b, dpkg_compare a b with
+  | Res x, Some d => (x =? d)%Z
+  | _, _ => false
+  end.
+
+Definition debian_domain : list bytes := all_strings small_alpha 3.
+
+Lemma debian_small_domain_b :
+  forallb (fun a => forallb (fun b => debian_ok a b) debian_domain) debian_domain = true.
+Proof. vm_compute. reflexivity. Qed.
+
+Lemma debian_small_domain : forall a b, In a debian_domain -> In b debian_domain -> debian_ok a b = true.
+Proof.
+  intros a b Ha Hb. pose proof debian_small_domain_b as H.
+  rewrite forallb_forall in H. specialize (H a Ha). rewrite forallb_forall in H. exact (H b Hb).
+Qed.
